@@ -21,6 +21,7 @@ Reading guide
 * placement: `offsetsFrom_getElem`, `rawMapAux_mem`, `lagged_excludes_vector` …
 -/
 import IrisVerif.Lemmas.ADRules
+import IrisVerif.Lemmas.ADMaps
 
 namespace IrisVerif.C02
 open IrisVerif.AD IrisVerif.Gen
@@ -715,6 +716,209 @@ theorem measurement_occurrence_covered (q : Nat) (s minShift maxShift : Int) (hm
 theorem one_lag_is_not_enough : ((0 : Nat), (-1 : Int)) ∉ tokensForQid 0 (-1) 0 := by
   decide
 
+/-! ### placement, second part: every map is characterised entry by entry, writes every cell at most once, and the
+transition vector / dynamic identities / stacked-time rows / terminal rows are what the property says -/
+
+/-- `ArrayMap.static`, every entry: the row is the position `i` of the equation, the column carries exactly the token `wrt_i[k]`,
+    and the value read is row `offset_i + k` (column 0) of the stacked AD output -/
+theorem staticMap_mem (cols : List (Option Token)) (eqs : List (List Token × Nat)) (en : Entry)
+    (h : en ∈ staticMap cols eqs) :
+    ∃ i, ∃ hi : i < eqs.length, ∃ k, ∃ hk : k < eqs[i].1.length, some eqs[i].1[k] ∈ cols ∧
+      en = ⟨i, cols.idxOf (some eqs[i].1[k]), eqs[i].2 + k, 0⟩ := by
+  obtain ⟨i, hi, h1⟩ := staticMapAux_mem cols 0 eqs en h
+  obtain ⟨k, hk, h2, h3⟩ := rawMapAux_mem' cols (0 + i) eqs[i].2 eqs[i].1 en h1
+  exact ⟨i, hi, k, hk, h2, by simpa using h3⟩
+
+/-- … and conversely every wrt-token of every equation that has a column gets that entry (nothing is dropped) -/
+theorem staticMap_complete (cols : List (Option Token)) (eqs : List (List Token × Nat)) (i : Nat) (hi : i < eqs.length)
+    (k : Nat) (hk : k < eqs[i].1.length) (hc : some eqs[i].1[k] ∈ cols) :
+    ⟨i, cols.idxOf (some eqs[i].1[k]), eqs[i].2 + k, 0⟩ ∈ staticMap cols eqs := by
+  apply staticMapAux_complete cols 0 eqs i hi
+  have := rawMapAux_complete cols (0 + i) eqs[i].2 eqs[i].1 k hk hc
+  simpa using this
+
+/-- **no two map entries address the same Jacobian cell** (wrt-lists without duplicates): the scatter `J[lhs] = diff[rhs]`
+    never overwrites a derivative with another one -/
+theorem staticMap_cell_inj (cols : List (Option Token)) (eqs : List (List Token × Nat)) (hnd : ∀ p ∈ eqs, p.1.Nodup)
+    (en en' : Entry) (h : en ∈ staticMap cols eqs) (h' : en' ∈ staticMap cols eqs) (hc : en.cell = en'.cell) :
+    en = en' := by
+  obtain ⟨i, hi, k, hk, hm, rfl⟩ := staticMap_mem cols eqs en h
+  obtain ⟨i', hi', k', hk', hm', rfl⟩ := staticMap_mem cols eqs en' h'
+  simp only [Entry.cell, Prod.mk.injEq] at hc
+  obtain ⟨rfl, hcol⟩ := hc
+  have ht : some eqs[i].1[k] = some eqs[i].1[k'] := (List.idxOf_inj hm).mp hcol
+  have hkk : k = k' :=
+    (List.Nodup.getElem_inj_iff (hnd eqs[i] (List.getElem_mem hi))).mp (Option.some.inj ht)
+  subst hkk
+  rfl
+
+/-- membership in one quantity's run of the transition vector: shifts `min(minShift, -1) + 1 … maxShift` -/
+theorem tokensForQid_mem (q q' : Nat) (mn mx s : Int) :
+    (q', s) ∈ tokensForQid q mn mx ↔ q' = q ∧ (if mn < -1 then mn else -1) < s ∧ s ≤ mx := by
+  simp only [tokensForQid]
+  generalize (if mn < -1 then mn else -1) = lo
+  constructor
+  · intro h
+    have hq := shiftRange_fst _ _ _ _ h
+    simp only at hq
+    subst hq
+    have := (shiftRange_mem' q' _ _ s).mp h
+    exact ⟨rfl, this.1, by omega⟩
+  · rintro ⟨rfl, h1, h2⟩
+    rw [shiftRange_mem']
+    exact ⟨h1, by omega⟩
+
+/-- `_create_system_transition_vector` + `sort_tokens`: the vector holds exactly the runs of the quantities -/
+theorem transitionVector_mem (ranges : List (Nat × Int × Int)) (t : Token) :
+    t ∈ transitionVector ranges ↔ ∃ r ∈ ranges, t ∈ tokensForQid r.1 r.2.1 r.2.2 := by
+  simp only [transitionVector, sortTokens_eq, List.mem_insertionSort, List.mem_flatMap]
+
+/-- the vector is sorted by `sort_tokens`' key `(-shift, qid)`: leads first, then current dates, then lags; by quantity id within a date -/
+theorem transitionVector_sorted (ranges : List (Nat × Int × Int)) :
+    (transitionVector ranges).Pairwise (fun a b => b.2 < a.2 ∨ (a.2 = b.2 ∧ a.1 ≤ b.1)) := by
+  have := List.pairwise_insertionSort TokenLe (ranges.flatMap (fun r => tokensForQid r.1 r.2.1 r.2.2))
+  simp only [transitionVector, sortTokens_eq]
+  exact this.imp (fun {a b} h => (tokenLe_iff a b).mp h)
+
+/-- with one range per quantity the vector has no duplicates … -/
+theorem transitionVector_nodup (ranges : List (Nat × Int × Int)) (hq : (ranges.map (·.1)).Nodup) :
+    (transitionVector ranges).Nodup := by
+  simp only [transitionVector, sortTokens_eq]
+  rw [(List.perm_insertionSort TokenLe _).nodup_iff]
+  induction ranges with
+  | nil => simp
+  | cons r rs ih =>
+    simp only [List.map_cons, List.nodup_cons] at hq
+    simp only [List.flatMap_cons]
+    rw [List.nodup_append]
+    refine ⟨shiftRange_nodup _ _ _, ih hq.2, ?_⟩
+    intro a ha b hb hab
+    subst hab
+    simp only [List.mem_flatMap] at hb
+    obtain ⟨r', hr', hb⟩ := hb
+    have h1 : a.1 = r.1 := shiftRange_fst _ _ _ _ ha
+    have h2 : a.1 = r'.1 := shiftRange_fst _ _ _ _ hb
+    exact hq.1 (List.mem_map.mpr ⟨r', hr', by rw [← h2, h1]⟩)
+
+/-- … so **every shift `min+1 … max` of every transition variable is covered exactly once** -/
+theorem transitionVector_covers_exactly_once (ranges : List (Nat × Int × Int)) (hq : (ranges.map (·.1)).Nodup)
+    (r : Nat × Int × Int) (hr : r ∈ ranges) (s : Int) (h1 : (if r.2.1 < -1 then r.2.1 else -1) < s) (h2 : s ≤ r.2.2) :
+    (transitionVector ranges).count (r.1, s) = 1 := by
+  apply List.count_eq_one_of_mem (transitionVector_nodup ranges hq)
+  rw [transitionVector_mem]
+  exact ⟨r, hr, (tokensForQid_mem r.1 r.1 r.2.1 r.2.2 s).mpr ⟨rfl, h1, h2⟩⟩
+
+/-- `_create_dynid_matrices`, every row `(row, i, j)` (`A[row, i] = 1`, `B[row, j] = -1`): column `j` carries the token of column `i`
+    one period later, i.e. the row says `ξ_t[(q, s)] = ξ_{t-1}[(q, s+1)]` -/
+theorem dynid_mem (tv : List Token) (e : Nat × Nat × Nat) (h : e ∈ dynid tv) :
+    ∃ hi : e.2.1 < tv.length, tv[e.2.2]? = some (shifted tv[e.2.1] 1) := by
+  obtain ⟨k, hk, hc, h1, h2⟩ := dynidAux_mem tv 0 0 tv e h
+  have hk' : e.2.1 = k := by omega
+  refine ⟨by omega, ?_⟩
+  rw [h2]
+  simp only [hk']
+  exact List.getElem?_idxOf hc
+
+/-- every vector token whose one-period lead is also in the vector gets an identity row (tokens with the largest shift get none) -/
+theorem dynid_complete (tv : List Token) (i : Nat) (hi : i < tv.length) (hc : shifted tv[i] 1 ∈ tv) :
+    ∃ r, (r, i, tv.idxOf (shifted tv[i] 1)) ∈ dynid tv := by
+  obtain ⟨r, hr⟩ := dynidAux_complete tv 0 0 tv i hi hc
+  exact ⟨r, by simpa [dynid] using hr⟩
+
+/-- the identity rows are numbered `0, 1, 2, …` without gaps (they are stacked below the equations' rows) -/
+theorem dynid_rows (tv : List Token) : (dynid tv).map (·.1) = List.range (dynid tv).length := by
+  rw [List.range_eq_range']
+  exact dynidAux_rows tv 0 0 tv
+
+/-- stacked-time map, every entry: for equation `i`, its `p`-th wrt-token and the `j`-th evaluated period, the entry sits in
+    row `i + n·j` (`n` equations), in the column of the spot `(qid, shift + column_j)`, and reads row `offset_i + p`, column `j`
+    of the stacked AD output -/
+theorem stackedMap_mem (spots : List Token) (cols : List Int) (eqs : List (List Token)) (en : Entry)
+    (h : en ∈ stackedMap spots cols eqs) :
+    ∃ i, ∃ hi : i < eqs.length, ∃ p, ∃ hp : p < eqs[i].length, ∃ j, ∃ hj : j < cols.length,
+      shifted eqs[i][p] cols[j] ∈ spots ∧
+      en = ⟨i + eqs.length * j, spots.idxOf (shifted eqs[i][p] cols[j]), ((eqs.take i).map List.length).sum + p, j⟩ := by
+  obtain ⟨i, hi, h1⟩ := stackedAux_mem spots cols eqs.length 0 0 eqs en h
+  obtain ⟨p, hp, h2⟩ := stackedForEq_mem spots cols eqs.length (0 + i) _ eqs[i] en h1
+  obtain ⟨j, hj, h3, h4⟩ := stackedForToken_mem spots eqs.length (0 + i) _ eqs[i][p] 0 cols en h2
+  exact ⟨i, hi, p, hp, j, hj, h3, by simpa using h4⟩
+
+/-- … and every (equation, wrt-token, period) whose shifted token is a wrt-spot gets that entry -/
+theorem stackedMap_complete (spots : List Token) (cols : List Int) (eqs : List (List Token)) (i : Nat) (hi : i < eqs.length)
+    (p : Nat) (hp : p < eqs[i].length) (j : Nat) (hj : j < cols.length) (hc : shifted eqs[i][p] cols[j] ∈ spots) :
+    ⟨i + eqs.length * j, spots.idxOf (shifted eqs[i][p] cols[j]), ((eqs.take i).map List.length).sum + p, j⟩
+      ∈ stackedMap spots cols eqs := by
+  apply stackedAux_complete spots cols eqs.length 0 0 eqs i hi
+  apply stackedForEq_complete spots cols eqs.length (0 + i) _ eqs[i] p hp
+  have := stackedForToken_complete spots eqs.length (0 + i) (0 + ((eqs.take i).map List.length).sum + p) eqs[i][p] 0 cols j hj hc
+  simpa using this
+
+/-- `lhs_row = eqn + n·column` is injective on (equation, period) … -/
+theorem stacked_row_inj (n i j i' j' : Nat) (hi : i < n) (hi' : i' < n) (h : i + n * j = i' + n * j') : i = i' ∧ j = j' := by
+  have h1 : (i + n * j) % n = (i' + n * j') % n := by rw [h]
+  rw [Nat.add_mul_mod_self_left, Nat.add_mul_mod_self_left, Nat.mod_eq_of_lt hi, Nat.mod_eq_of_lt hi'] at h1
+  subst h1
+  have hn : 0 < n := by omega
+  have : n * j = n * j' := by omega
+  exact ⟨rfl, Nat.eq_of_mul_eq_mul_left hn this⟩
+
+/-- … and onto the rows `0 … n·T - 1`: a bijection between (equation, period) and the rows of the stacked system -/
+theorem stacked_row_surj (n T r : Nat) (hr : r < n * T) : ∃ i j, i < n ∧ j < T ∧ r = i + n * j := by
+  have hn : 0 < n := by
+    rcases Nat.eq_zero_or_pos n with h | h
+    · subst h; simp at hr
+    · exact h
+  refine ⟨r % n, r / n, Nat.mod_lt _ hn, ?_, (Nat.mod_add_div r n).symm⟩
+  exact Nat.div_lt_of_lt_mul hr
+
+/-- **no two entries of the stacked-time map address the same cell** (wrt-lists without duplicates) -/
+theorem stackedMap_cell_inj (spots : List Token) (cols : List Int) (eqs : List (List Token)) (hnd : ∀ w ∈ eqs, w.Nodup)
+    (en en' : Entry) (h : en ∈ stackedMap spots cols eqs) (h' : en' ∈ stackedMap spots cols eqs) (hc : en.cell = en'.cell) :
+    en = en' := by
+  obtain ⟨i, hi, p, hp, j, hj, hm, rfl⟩ := stackedMap_mem spots cols eqs en h
+  obtain ⟨i', hi', p', hp', j', hj', hm', rfl⟩ := stackedMap_mem spots cols eqs en' h'
+  simp only [Entry.cell, Prod.mk.injEq] at hc
+  obtain ⟨hrow, hcol⟩ := hc
+  obtain ⟨rfl, rfl⟩ := stacked_row_inj eqs.length i j i' j' hi hi' hrow
+  have ht : shifted eqs[i][p] cols[j] = shifted eqs[i][p'] cols[j] := (List.idxOf_inj hm).mp hcol
+  have ht' : eqs[i][p] = eqs[i][p'] := by
+    have h1 := congrArg Prod.fst ht
+    have h2 := congrArg Prod.snd ht
+    simp only [shifted] at h1 h2
+    exact Prod.ext h1 (by omega)
+  have hpp : p = p' := (List.Nodup.getElem_inj_iff (hnd eqs[i] (List.getElem_mem hi))).mp ht'
+  subst hpp
+  rfl
+
+/-- `Terminator.__init__`: the running index stored with the terminal spot `(qid_p, terminal column_k)` is `k·nq + p`
+    (column-major), and only spots within the quantity's longest lead are kept -/
+theorem terminalSpots_mem (termCols : List Int) (qids : List Nat) (maxShift : Nat → Int) (last : Int) (e : Nat × Token)
+    (h : e ∈ terminalSpots termCols qids maxShift last) :
+    ∃ k, ∃ hk : k < termCols.length, ∃ p, ∃ hp : p < qids.length,
+      termCols[k] ≤ last + maxShift qids[p] ∧ e = (k * qids.length + p, (qids[p], termCols[k])) := by
+  obtain ⟨k, hk, p, hp, h1, h2⟩ := termSpotsAux_mem qids _ 0 termCols e h
+  exact ⟨k, hk, p, hp, by simpa using h1, by simpa using h2⟩
+
+/-- **`terminate_jacobian`'s row selection**: `_curr_TT` stacks, for each terminal column `k`, the current-dated rows of `T^(k+1)`
+    (blocks of `nq` rows); indexing it with the stored running index of a terminal spot picks row `p` of block `k` — the row of the
+    quantity of that spot in the power of `T` that belongs to that terminal column -/
+theorem terminal_row_selection {ρ : Type} (termCols : List Int) (qids : List Nat) (maxShift : Nat → Int) (last : Int)
+    (blocks : List (List ρ)) (hb : ∀ b ∈ blocks, b.length = qids.length) (hlen : blocks.length = termCols.length)
+    (e : Nat × Token) (h : e ∈ terminalSpots termCols qids maxShift last) :
+    ∃ k, ∃ hk : k < blocks.length, ∃ p, ∃ hp : p < qids.length,
+      e.2 = (qids[p], termCols[k]'(hlen ▸ hk)) ∧ blocks.flatten[e.1]? = blocks[k][p]? := by
+  obtain ⟨k, hk, p, hp, _, rfl⟩ := terminalSpots_mem termCols qids maxShift last e h
+  exact ⟨k, hlen ▸ hk, p, hp, rfl, flatten_getElem_uniform blocks qids.length hb k p (hlen ▸ hk) hp⟩
+
+/-- `create_terminal_jacobian_map`: a pair `(l, r)` sends column `r` of the chain-rule term to the Jacobian column `l` whose wrt-spot
+    is exactly the `r`-th entry of the terminal-initial vector -/
+theorem terminalJacMap_mem (wrtSpots terminit : List Token) (e : Nat × Nat) (h : e ∈ terminalJacMap wrtSpots terminit) :
+    ∃ hr : e.2 < terminit.length, wrtSpots[e.1]? = some terminit[e.2] := by
+  obtain ⟨k, hk, h1, h2⟩ := terminalJacMapAux_mem wrtSpots 0 terminit e h
+  have : e.2 = k := by omega
+  subst this
+  exact ⟨hk, h2⟩
+
 /-! ### user context functions: the two-sided difference quotient (partial: only this much is proved) -/
 
 /-- the difference quotient of `finite_differentiators.py` is the exact derivative of every polynomial of degree ≤ 2, for any step -/
@@ -734,6 +938,67 @@ theorem centralDiff_cubic (x eps : ℝ) (h : eps ≠ 0) :
   field_simp
   ring
 
+/-- **the finite-difference rule composed with the chain rule**: for `f(g(x))` with a user function `f`, the walk
+    (`_calculate_finite_derivatives`) returns `(f v, centralDiff f v eps · d)`; this is sound exactly as far as the difference quotient
+    of `f` at `v` is the derivative of `f` there -/
+theorem userCall1_sound_of_exact {f g : ℝ → ℝ} {x v d eps : ℝ} (hg : Rep v d g x)
+    (hf : HasDerivAt f (centralDiff f v eps) v) :
+    Rep (userCall1Value f v d eps) (userCall1Diff f v d eps) (fun y => f (g y)) x := by
+  refine ⟨by simp [userCall1Value, hg.val], ?_⟩
+  have hf' : HasDerivAt f (centralDiff f v eps) (g x) := by rw [hg.val]; exact hf
+  exact hf'.comp x hg.der
+
+/-- exact for every user function that is a polynomial of degree ≤ 2, for any non-zero step (in particular `getEpsilon v`) -/
+theorem userCall1_quadratic_sound (a b c : ℝ) {g : ℝ → ℝ} {x v d eps : ℝ} (hg : Rep v d g x) (he : eps ≠ 0) :
+    Rep (userCall1Value (fun y => a * y ^ 2 + b * y + c) v d eps) (userCall1Diff (fun y => a * y ^ 2 + b * y + c) v d eps)
+      (fun y => a * (g y) ^ 2 + b * (g y) + c) x := by
+  apply userCall1_sound_of_exact (f := fun y => a * y ^ 2 + b * y + c) hg
+  rw [centralDiff_exact_quadratic a b c v eps he]
+  have h := ((((hasDerivAt_pow 2 v).const_mul a).add ((hasDerivAt_id v).const_mul b)).add_const c)
+  refine h.congr_deriv ?_
+  simp
+  ring
+
+/-- for the cubic the walk is off by exactly `eps² · d`: the true derivative of `g(x)³` is `3 v² d`, the walk returns `(3 v² + eps²) d` -/
+theorem userCall1_cubic_error {g : ℝ → ℝ} {x v d eps : ℝ} (hg : Rep v d g x) (he : eps ≠ 0) :
+    HasDerivAt (fun y => (g y) ^ 3) (3 * v ^ 2 * d) x ∧
+      userCall1Diff (fun y => y ^ 3) v d eps - 3 * v ^ 2 * d = eps ^ 2 * d := by
+  constructor
+  · have h := hg.der.pow 3
+    rw [hg.val] at h
+    refine h.congr_deriv ?_
+    simp
+  · rw [userCall1Diff, centralDiff_cubic v eps he]
+    ring
+
+/-- with the code's step `eps = max(|v|, 1) · 1e-6` the error for the cubic is `max(|v|, 1)² · 1e-12 · |d|` -/
+theorem userCall1_cubic_error_bound (v d : ℝ) :
+    |userCall1Diff (fun y => y ^ 3) v d (getEpsilon v) - 3 * v ^ 2 * d| = (max |v| 1) ^ 2 * (1 / 1000000) ^ 2 * |d| := by
+  rw [userCall1Diff, centralDiff_cubic v _ (ne_of_gt (getEpsilon_pos v))]
+  have : (3 * v ^ 2 + getEpsilon v ^ 2) * d - 3 * v ^ 2 * d = getEpsilon v ^ 2 * d := by ring
+  rw [this, abs_mul, abs_of_nonneg (sq_nonneg _), getEpsilon]
+  ring
+
+/-- two arguments: the total derivative `Σ_k ∂_k f · d_k` with each partial by its own difference quotient is exact for
+    every bilinear-quadratic `f(u, w) = a·u·w + b·u + c·w + e·u²` -/
+theorem userCall2_bilinear_sound (a b c e : ℝ) {g1 g2 : ℝ → ℝ} {x v1 d1 v2 d2 eps1 eps2 : ℝ}
+    (h1 : Rep v1 d1 g1 x) (h2 : Rep v2 d2 g2 x) (he1 : eps1 ≠ 0) (he2 : eps2 ≠ 0) :
+    HasDerivAt (fun y => a * g1 y * g2 y + b * g1 y + c * g2 y + e * (g1 y) ^ 2)
+      (userCall2Diff (fun u w => a * u * w + b * u + c * w + e * u ^ 2) v1 d1 eps1 v2 d2 eps2) x := by
+  have hd : userCall2Diff (fun u w => a * u * w + b * u + c * w + e * u ^ 2) v1 d1 eps1 v2 d2 eps2
+      = (a * v2 + b + 2 * e * v1) * d1 + (a * v1 + c) * d2 := by
+    simp only [userCall2Diff, centralDiff]
+    push_cast
+    field_simp
+    ring
+  rw [hd]
+  have h := ((((h1.der.const_mul a).mul h2.der).add (h1.der.const_mul b)).add (h2.der.const_mul c)).add
+    ((h1.der.pow 2).const_mul e)
+  rw [h1.val, h2.val] at h
+  refine h.congr_deriv ?_
+  simp
+  ring
+
 /-! ### non-vacuity: the hypotheses are met by concrete non-trivial values -/
 
 /-- `x * y + log x` at `x = 2` (a log-variable), `y = 3`, system seed in the direction of `x`:
@@ -750,5 +1015,18 @@ example :
   · simp [UsesMaximum]
 
 example : Rep 3 1 (fun y => 3 + 1 * (y - 7)) 7 := rep_affine 3 1 7
+
+/-- the map theorems are not vacuous: `x{+1}, x, x{-1}` of one variable (range `-2 … 1`) and `y` (range `0 … 0`) -/
+example : transitionVector [(0, -2, 1), (1, 0, 0)] = [(0, 1), (0, 0), (1, 0), (0, -1)] := by decide
+
+example : dynid [(0, 1), (0, 0), (1, 0), (0, -1)] = [(0, 1, 0), (1, 3, 1)] := by decide
+
+example : staticMap (laggedVector [(0, 1), (0, 0), (1, 0), (0, -1)]) [([(0, 0), (0, -2), (1, -1)], 0)]
+    = [⟨0, 3, 1, 0⟩, ⟨0, 2, 2, 0⟩] := by decide
+
+example : stackedMap [(0, 1), (1, 1), (0, 2), (1, 2)] [1, 2] [[(0, 0), (0, -1)], [(1, 0), (0, 0)]]
+    = [⟨0, 0, 0, 0⟩, ⟨2, 2, 0, 1⟩, ⟨2, 0, 1, 1⟩, ⟨1, 1, 2, 0⟩, ⟨3, 3, 2, 1⟩, ⟨1, 0, 3, 0⟩, ⟨3, 2, 3, 1⟩] := by decide
+
+example : terminalSpots [5, 6] [0, 2] (fun q => if q = 0 then 2 else 1) 4 = [(0, (0, 5)), (1, (2, 5)), (2, (0, 6))] := by decide
 
 end IrisVerif.C02
